@@ -36,7 +36,7 @@ use scylla::frame::response::result::TableSpec;
 use scylla::frame::types::{Consistency, SerialConsistency};
 use scylla::policies::load_balancing::{DefaultPolicy, LoadBalancingPolicy, Plan, RoutingInfo};
 use scylla::routing::{NodeLocationPreference, ShardCount, Sharder, Token};
-use scylla::verif_hooks::cluster::{KeyspaceSpec, NodeSpec, cluster_from_topology_with_tablets};
+use scylla::verif_hooks::cluster::{KeyspaceSpec, NodeSpec, cluster_from_topology_with_tablets, set_sharders};
 use scylla::verif_hooks::pool::VerifPool;
 use std::cell::RefCell;
 use std::collections::HashMap;
@@ -248,6 +248,32 @@ fn fmt_tables(v: &[TableDecl]) -> String {
 // ---------------------------------------------------------------------------------------------
 // cluster construction (cached: cases of one topology are consecutive)
 
+/// Peer flags of C12: `[d][x][s<nr_shards>m<msb_ignore>]` - `d` = rejected by the host filter, `x` = no usable
+/// connection, `s..m..` = the node's sharder (absent: a node without shards). `None` = malformed.
+fn parse_flags(flags: &str) -> Option<Option<(u16, u8)>> {
+    let (pre, suf) = match flags.find('s') {
+        Some(i) => (&flags[..i], Some(&flags[i + 1..])),
+        None => (flags, None),
+    };
+    if !pre.chars().all(|c| c == 'd' || c == 'x') {
+        return None;
+    }
+    match suf {
+        None => Some(None),
+        Some(suf) => {
+            let (nr, msb) = suf.split_once('m')?;
+            if nr.is_empty() || msb.is_empty() || !nr.chars().all(|c| c.is_ascii_digit()) || !msb.chars().all(|c| c.is_ascii_digit()) {
+                return None;
+            }
+            let (nr, msb): (u32, u32) = (nr.parse().ok()?, msb.parse().ok()?);
+            if nr == 0 || nr > 65535 || msb >= 64 {
+                return None;
+            }
+            Some(Some((nr as u16, msb as u8)))
+        }
+    }
+}
+
 thread_local! {
     static RT: tokio::runtime::Runtime =
         tokio::runtime::Builder::new_current_thread().enable_all().build().unwrap();
@@ -280,6 +306,10 @@ fn build(peers: &[PeerSpec], kss: &[Strat], tables: &[TableDecl]) -> ClusterStat
             cs.verif_update_tablets(&[(format!("k{}", d.ks), format!("t{}", d.tbl), t.first, t.last, reps)]);
         }
     }
+    // per-node sharders (`Node::sharder()` of the pool-less hook nodes)
+    let sharders: HashMap<uuid::Uuid, (u16, u8)> =
+        peers.iter().filter_map(|p| parse_flags(&p.flags).flatten().map(|s| (host_id(p.id), s))).collect();
+    set_sharders(&cs, &sharders);
     cs
 }
 
@@ -391,6 +421,9 @@ fn run_plan(w: &[&str], ctx: &mut Ctx) -> String {
     ) else {
         return "bad-case".into();
     };
+    if peers.iter().any(|p| parse_flags(&p.flags).is_none()) {
+        return "bad-case".into();
+    }
     let cs = cluster(format!("{} {} {}", w[1], w[2], w[3]), &peers, &kss, &tables);
 
     let mut b = DefaultPolicy::builder()
@@ -440,19 +473,27 @@ fn run_plan(w: &[&str], ctx: &mut Ctx) -> String {
     let permitted = |p: &PeerSpec| pref.dc().is_none() || cfg.failover || p.dc == pref.dc();
     let decl = rq.ks.and_then(|k| tables.iter().find(|d| d.ks == k && d.tbl == tbl));
     let tokn = rq.token.map(norm_token);
-    // expected replicas: (host, Some(shard)) for tablets, (host, None) for the ring; None = the statement does not apply
+    // the shard ScyllaDB's algorithm gives the token on THIS node (its own nr_shards / msb_ignore; 0 without sharder)
+    let node_shard = |h: u64, tok: i64| -> u32 {
+        match by_id.get(&h).and_then(|p| parse_flags(&p.flags).flatten()) {
+            Some((n, msb)) => literal_shard(n, msb, tok),
+            None => 0,
+        }
+    };
+    // expected replicas with their shards: the tablet's shard, or the token's shard under the replica's own sharder;
+    // None = the statement does not apply
     let expected: Option<Vec<(u64, Option<u32>)>> = match (cfg.token_aware, tokn, rq.ks.and_then(|k| kss.get(k))) {
         (true, Some(tok), Some(strat)) => Some(match decl {
             Some(d) => shadow_tablet(&d.tablets, tok)
                 .map(|t| t.reps.iter().filter(|(h, _)| by_id.contains_key(h)).map(|(h, s)| (*h, Some(*s))).collect())
                 .unwrap_or_default(),
-            None => brute_ring_replicas(&peers, strat, tok).into_iter().map(|h| (h, None)).collect(),
+            None => brute_ring_replicas(&peers, strat, tok).into_iter().map(|h| (h, Some(node_shard(h, tok)))).collect(),
         }),
         _ => None,
     };
     if let (Some(exp), Some(ra)) = (&expected, &r_all) {
-        // the locator's answer is the brute-force replica set (order-insensitive; shards only for tablets)
-        let mut a: Vec<(u64, Option<u32>)> = ra.iter().map(|(i, s)| (*i, if decl.is_some() { Some(*s) } else { None })).collect();
+        // the locator's answer is the brute-force replica set with the right shards (order-insensitive)
+        let mut a: Vec<(u64, Option<u32>)> = ra.iter().map(|(i, s)| (*i, Some(*s))).collect();
         let mut e = exp.clone();
         a.sort();
         e.sort();
@@ -489,7 +530,18 @@ fn run_plan(w: &[&str], ctx: &mut Ctx) -> String {
             let shard = shard.flatten();
             let target_set = if !live_local.is_empty() { &live_local } else { &live_perm };
             let hit = target_set.iter().any(|(h, s)| *h == node && (s.is_none() || *s == shard));
-            if !hit {
+            if !hit && decl.is_none() && shard.is_some() && target_set.iter().any(|(h, _)| *h == node) {
+                ctx.fail(format!(
+                    "sample {}: {} sends the request for token {:?} to ring replica {} with shard {:?}, but ScyllaDB's algorithm under THAT node's sharder {:?} gives shard {}",
+                    k,
+                    what,
+                    tokn,
+                    node,
+                    shard,
+                    by_id.get(&node).and_then(|p| parse_flags(&p.flags).flatten()),
+                    node_shard(node, tokn.unwrap_or(0))
+                ));
+            } else if !hit {
                 ctx.fail(format!(
                     "sample {}: first target of {} is node {} shard {:?}, not one of the live {}replicas {:?} of token {:?}",
                     k,
@@ -502,6 +554,14 @@ fn run_plan(w: &[&str], ctx: &mut Ctx) -> String {
                 ));
             } else if what == "policy" && shard.is_none() {
                 ctx.fail(format!("sample {}: the policy sends the request to replica {} without a shard", k, node));
+            }
+        }
+        if let Some((node, shard)) = first {
+            // a target that is no replica gets a random shard of ITS node (0 on a node without shards)
+            let is_rep = expected.as_ref().is_some_and(|e| e.iter().any(|(h, _)| *h == node));
+            let nr = by_id.get(&node).and_then(|p| parse_flags(&p.flags).flatten()).map(|s| s.0 as u32).unwrap_or(1);
+            if !is_rep && shard >= nr {
+                ctx.fail(format!("sample {}: Plan gives node {} (not a replica) shard {} but the node has {} shard(s)", k, node, shard, nr));
             }
         }
         let p = first.map(|(i, s)| format!("{}:{}", i, s)).unwrap_or_else(|| "-".into());
@@ -545,10 +605,10 @@ fn literal_shard(n: u16, msb: u8, tok: i64) -> u32 {
     ((shifted as u128 * n as u128) >> 64) as u32
 }
 
-async fn run_pool(route: bool, n: u16, msb: u8, per_shard: bool, k: usize, port_ok: bool, reqs: &[i64], ctx: &mut Ctx) -> String {
+async fn run_pool(route: bool, n: u16, msb: u8, per_shard: bool, k: usize, port_ok: bool, shifted: bool, reqs: &[i64], ctx: &mut Ctx) -> String {
     let node = MockNode::start_sharded(
         false,
-        ShardMode::ByPort(n, msb),
+        if shifted { ShardMode::ByPortShifted(n, msb) } else { ShardMode::ByPort(n, msb) },
         Box::new(|req| match &req.parsed {
             Parsed::Query { .. } => vec![Action::Respond(RESP_RESULT, body_void())],
             _ => vec![Action::Close],
@@ -561,13 +621,30 @@ async fn run_pool(route: bool, n: u16, msb: u8, per_shard: bool, k: usize, port_
     };
     pool.wait_until_initialized().await;
     let target = if per_shard { n as usize * k } else { k };
-    // settle: wait until the pool is full, then until two looks 8 ms apart see the same pool and the same server
+    // What the SERVER knows about the pool: with PerShard(k) the first k connections it put on shard s are pooled
+    // (a bucket below k accepts, nothing breaks here), later ones are excess; with PerHost(k) exactly k connections
+    // are opened and all are pooled. Both need every accepted connection to have been handed to the refiller.
+    let pooled_of = |accepted: &[Option<u16>]| -> Vec<u16> {
+        if per_shard {
+            (0..n).flat_map(|s| std::iter::repeat(s).take(accepted.iter().filter(|a| **a == Some(s)).count().min(k))).collect()
+        } else {
+            accepted.iter().filter_map(|a| *a).collect()
+        }
+    };
+    // settle: until the pool is full (or, when connections land where the server likes, for a bounded time), the
+    // pool agrees with the server's record, and two looks 4 ms apart see the same pool
+    let limit = if port_ok && !shifted { 4000 } else { 900 };
     let t0 = std::time::Instant::now();
     let mut stable = 0;
-    let mut last = (usize::MAX, usize::MAX);
-    while t0.elapsed() < Duration::from_millis(4000) {
-        let now = (pool.connection_count().unwrap_or(0), node.conn_shards().len());
-        if now.0 == target && now == last {
+    let mut last = usize::MAX;
+    loop {
+        let elapsed = t0.elapsed();
+        if elapsed >= Duration::from_millis(4000) {
+            break;
+        }
+        let count = pool.connection_count().unwrap_or(0);
+        let agrees = pooled_of(&node.conn_shards()).len() == count;
+        if agrees && count == last && (count == target || elapsed >= Duration::from_millis(limit)) {
             stable += 1;
             if stable >= 2 {
                 break;
@@ -575,21 +652,17 @@ async fn run_pool(route: bool, n: u16, msb: u8, per_shard: bool, k: usize, port_
         } else {
             stable = 0;
         }
-        last = now;
+        last = count;
         tokio::time::sleep(Duration::from_millis(4)).await;
     }
     let count = pool.connection_count().unwrap_or(0);
     let accepted = node.conn_shards();
-    // the shards of the pooled connections, as the SERVER knows them: exact when every accepted connection is pooled
-    let mock_exact = accepted.len() == count && accepted.iter().all(|s| s.is_some());
-    let mut have: Vec<u16> = if mock_exact {
-        accepted.iter().map(|s| s.unwrap()).collect()
-    } else if per_shard && count == target {
-        (0..n).flat_map(|s| std::iter::repeat(s).take(k)).collect()
-    } else {
-        Vec::new() // filled from the probes below
-    };
-    let probe_derived = have.is_empty();
+    let mut have: Vec<u16> = pooled_of(&accepted);
+    // when the server's record and the pool's size disagree (connections still in flight), fall back to probing
+    let probe_derived = have.len() != count;
+    if probe_derived {
+        have.clear();
+    }
     let nr = pool.nr_shards();
     if nr != Some(n) {
         ctx.fail(format!("the pool believes the node has {:?} shards, the server said {}", nr, n));
@@ -656,8 +729,8 @@ async fn run_pool(route: bool, n: u16, msb: u8, per_shard: bool, k: usize, port_
         obs.push(format!("{}:{}", head, got));
     }
     // the pool must not have changed while it was probed (otherwise `have` is stale: report nothing)
-    let after = (pool.connection_count().unwrap_or(0), node.conn_shards().len());
-    if after != (count, accepted.len()) {
+    // (connections the refiller keeps opening for a shard it cannot reach do not matter: only pooled ones count)
+    if pool.connection_count().unwrap_or(0) != count || (!probe_derived && pooled_of(&node.conn_shards()) != pooled_of(&accepted)) {
         ctx.oracle_failures.clear();
         return "unstable-pool".into();
     }
@@ -680,9 +753,12 @@ pub fn run(case: &str, ctx: &mut Ctx) -> String {
             let (Ok(n), Ok(msb), Some((per_shard, k))) = (w[1].parse::<u16>(), w[2].parse::<u8>(), parse_size(w[3])) else {
                 return "bad-case".into();
             };
-            let port_ok = match w[4] {
-                "p" => true,
-                "n" => false,
+            // p / n: shard-aware port may / may not be used; q: may be used, but the server puts the connection on
+            // the NEXT shard (a NAT rewriting source ports)
+            let (port_ok, shifted) = match w[4] {
+                "p" => (true, false),
+                "n" => (false, false),
+                "q" => (true, true),
                 _ => return "bad-case".into(),
             };
             let Some(reqs) = w[5].split(',').map(|x| x.parse::<i64>().ok()).collect::<Option<Vec<i64>>>() else {
@@ -695,7 +771,7 @@ pub fn run(case: &str, ctx: &mut Ctx) -> String {
             let mut out = String::new();
             for _ in 0..4 {
                 let rt = tokio::runtime::Builder::new_current_thread().enable_all().build().unwrap();
-                out = rt.block_on(run_pool(route, n, msb, per_shard, k, port_ok, &reqs, ctx));
+                out = rt.block_on(run_pool(route, n, msb, per_shard, k, port_ok, shifted, &reqs, ctx));
                 if out != "unstable-pool" {
                     break;
                 }
@@ -776,6 +852,24 @@ fn random_flags(rng: &mut Rng, peers: &mut [PeerSpec]) {
                 _ => String::new(),
             },
         };
+    }
+}
+
+/// Per-node sharders appended to the flags: different shard counts / msb_ignore per node, some nodes without shards.
+fn add_sharders(rng: &mut Rng, peers: &mut [PeerSpec]) {
+    const NRS: [u16; 14] = [1, 2, 3, 4, 5, 6, 7, 8, 12, 16, 255, 256, 1000, 65535];
+    const MSBS: [u8; 7] = [0, 1, 12, 12, 12, 31, 63];
+    let mode = rng.below(8);
+    let common = (*rng.pick(&NRS), *rng.pick(&MSBS));
+    for p in peers.iter_mut() {
+        let sh = match mode {
+            0 => None,                 // a Cassandra-like cluster
+            1 => Some(common),         // the same sharder everywhere
+            _ => if rng.chance(1, 6) { None } else { Some((*rng.pick(&NRS), *rng.pick(&MSBS))) },
+        };
+        if let Some((nr, msb)) = sh {
+            p.flags.push_str(&format!("s{}m{}", nr, msb));
+        }
     }
 }
 
@@ -935,6 +1029,7 @@ pub fn generate(rng: &mut Rng, tier: Tier, emit0: &mut dyn FnMut(String)) {
         let ks_s = fmt_strategies(&kss);
         for _ in 0..2 {
             random_flags(rng, &mut peers);
+            add_sharders(rng, &mut peers);
             let topo = fmt_topology(&peers);
             for _ in 0..5 {
                 let cfg = format!(
@@ -1015,7 +1110,17 @@ pub fn generate(rng: &mut Rng, tier: Tier, emit0: &mut dyn FnMut(String)) {
         emit(format!("{} {} {} {} {} {}", kind, n, msb, size, port, reqs.join(",")));
     };
     let rounds = if quick { 1 } else { 6 };
-    for _ in 0..rounds {
+    for round in 0..rounds {
+        // the server reports the NEXT shard for shard-aware-port connections (NAT emulation): connections must be filed
+        // under the shard the server reports, not the one the driver aimed at
+        if round % 2 == 0 {
+            for n in [2u16, 3, 4, 5, 8] {
+                pool_case(rng, "pool", n, 12, "S1".into(), "q", emit);
+            }
+            pool_case(rng, "pool", 3, 12, "S2".into(), "q", emit);
+            pool_case(rng, "route", 3, 12, "S1".into(), "q", emit);
+            pool_case(rng, "route", 4, 0, "S1".into(), "q", emit);
+        }
         for n in 1..=8u16 {
             let msb = *rng.pick(&[0u8, 1, 12, 12, 12, 31, 63]);
             pool_case(rng, "pool", n, msb, "S1".into(), "p", emit);
@@ -1049,7 +1154,12 @@ pub fn generate(rng: &mut Rng, tier: Tier, emit0: &mut dyn FnMut(String)) {
         "pool 4 64 S1 p 0",
         "pool 4 12 S0 p 0",
         "pool 4 12 X1 p 0",
-        "pool 4 12 S1 q 0",
+        "pool 4 12 S1 z 0",
+        "plan 1:0:0:5:s0m12 S1 - a/t/f/s 5/0/0/one/-/a 0 3",
+        "plan 1:0:0:5:s4m64 S1 - a/t/f/s 5/0/0/one/-/a 0 3",
+        "plan 1:0:0:5:s4 S1 - a/t/f/s 5/0/0/one/-/a 0 3",
+        "plan 1:0:0:5:qs4m1 S1 - a/t/f/s 5/0/0/one/-/a 0 3",
+        "plan 1:0:0:5:s65536m1 S1 - a/t/f/s 5/0/0/one/-/a 0 3",
         "pool 4 12 S1 p -1",
         "route 4 12 S1 p 1,x",
         "shard 4 12 5",
